@@ -204,7 +204,14 @@ def lb2(F, R):
             stores.append((e, "get_mut", get_mut_of(loc[1])))
         elif mentions(loc, lambda x: x[0] == "item" and slots_iter(x[1])):
             stores.append((e, "iter_mut", None))
-    if not stores:
+    # a[..v.len()].copy_from_slice(&v) with v = all characters of the text
+    copies = []
+    for e in raw:
+        if e.kind == "call" and e.name in ("copy_from_slice", "clone_from_slice") and len(e.args) == 2:
+            dst = strip_load(e.args[0])
+            if dst[0] == "slice" and is_arr(dst[1]):
+                copies.append(e)
+    if not stores and not copies:
         R.missing("LB2", "store of a character into the text array", b.where())
         return
     # every place an Err is built (in from_str or in a helper inlined into it), with what is known there
@@ -224,6 +231,41 @@ def lb2(F, R):
             if f[0] == "cmp" and f[1] == "<" and is_char_count(f[3]) and (arr_len(f[2]) or strip_load(f[2]) == ("const", 8)):
                 return True
         return False
+    for e in copies:
+        dst = strip_load(e.args[0])
+        src = unwrap_casts(e.args[1])
+        for _ in range(3):
+            if src[0] == "call" and src[1].split("::")[-1] in ("deref", "as_slice", "as_ref") and src[2]:
+                src = unwrap_casts(src[2][0])
+        r = strip_load(dst[2])
+        detail = {"store": "copy_from_slice", "guards": [show(f, e.body) for f in sorted(e.facts, key=repr) if "Level" not in repr(f)][:8]}
+        whole = src[0] == "call" and src[1].split("::")[-1] == "collect" and src[2] and strip_load(src[2][0])[0] == "iter" and is_chars(src[2][0])
+        rng_ok = False
+        if r[0] == "agg" and r[1] in ("RangeTo", "Range"):
+            fs2 = dict(r[3])
+            end = strip_load(fs2.get("end", ("?",)))
+            start_ok = r[1] == "RangeTo" or strip_load(fs2.get("start", ("?",))) == ("const", 0)
+            rng_ok = start_ok and end[0] == "call" and end[1].split("::")[-1] == "len" and end[2] and \
+                strip_sites(unwrap_casts(end[2][0])) == strip_sites(src)
+        fits = any((f[0] == "in" and f[2] <= upto and is_char_count(f[1])) or
+                   (f[0] == "cmp" and f[1] == "<=" and is_char_count(f[2]) and (arr_len(f[3]) or strip_load(f[3]) == ("const", 8)))
+                   for f in e.facts)
+        e.d["lb2"] = (whole, rng_ok, fits, detail)
+    for e in copies:
+        whole, rng_ok, fits, detail = e.d["lb2"]
+        rej = any(count_rejected(ef) for ef in errs)
+        if not whole or not rng_ok:
+            R.bad("LB2", "LB2/Label::from_str/chars-not-all-visited", e.where(),
+                  "the characters copied into the array are not all characters of the text, in order, from slot 0", detail)
+        elif not fits:
+            R.bad("LB2", "LB2/Label::from_str/store-not-bounded", e.where(),
+                  "the characters are copied into the 8-slot array without a test that there are at most 8 of them: an over-long "
+                  "text panics instead of returning Err", detail)
+        elif not rej:
+            R.bad("LB2", "LB2/Label::from_str/overlong-not-rejected", e.where(),
+                  "a text longer than 8 characters is not rejected with Err", detail)
+        else:
+            R.ok("LB2", e.where(), "all characters copied to the first slots, at most 8 of them, a longer text gives Err", detail)
     for e, kind, idx in stores:
         facts = e.facts
         val = e.val
